@@ -4,6 +4,8 @@ package c17
 
 import (
 	"fmt"
+	"sort"
+	"strings"
 	"testing"
 
 	networking "istio.io/api/networking/v1alpha3"
@@ -12,6 +14,7 @@ import (
 	typev1beta1 "istio.io/api/type/v1beta1"
 	"istio.io/istio/pilot/pkg/model"
 	"istio.io/istio/pkg/config"
+	"istio.io/istio/pkg/config/host"
 	"istio.io/istio/pkg/config/labels"
 	"istio.io/istio/pkg/config/mesh"
 	"istio.io/istio/pkg/config/mesh/meshwatcher"
@@ -372,6 +375,54 @@ func genEnvoyF(c *vlib.Collector, id *int, r *vlib.Rand, n int) {
 		c.Add(vlib.Case{ID: *id, Tags: []string{"envoyf"}, Trivial: len(l) < 2,
 			Term: vlib.App("EnvoyF", vlib.NI(*id), vlib.Str(rootNs), vlib.ListOf(pl, func(x pc) string { return vlib.Pair(vlib.Z(x.P), x.C.term()) }), natList(p), nList(outs[0]), nList(outs[1])),
 			Sample: map[string]any{"kind": "EnvoyF", "filters": pl, "listing_permutation": p, "order": outs[0], "order_permuted_listing": outs[1]}})
+	}
+}
+
+// ---- MostSpecificHostMatch over a wildcard map (DestinationRule / Sidecar host lookup)
+
+func genHostMatch(c *vlib.Collector, id *int, r *vlib.Rand, n int) {
+	wilds := []string{"*.example.com", "*.Example.com", "*.EXAMPLE.com", "*.com", "*.Com", "*.a.example.com", "*.A.example.com", "*", "*.org"}
+	needles := []string{"reviews.example.com", "x.a.example.com", "Reviews.Example.com", "foo.org", "example.com", "x.A.example.com", "*.example.com", "*.x.example.com"}
+	for k := 0; k < n; k++ {
+		*id++
+		rr := r.Sub()
+		if !c.Wanted(*id) {
+			continue
+		}
+		needle := vlib.Pick(rr, needles)
+		ws := permute(wilds, perm(rr, len(wilds)))[:1+rr.Intn(5)]
+		seen := map[string]bool{}
+		for i := 0; i < 48; i++ {
+			m := map[host.Name]string{}
+			for _, j := range perm(rr, len(ws)) {
+				m[host.Name(ws[j])] = ws[j]
+			}
+			h, _, found := model.MostSpecificHostMatch(host.Name(needle), map[host.Name]string{}, m)
+			if !found {
+				h = ""
+			}
+			seen[string(h)] = true
+		}
+		var obs []string
+		for o := range seen {
+			obs = append(obs, o)
+		}
+		sort.Strings(obs)
+		// the model covers the wildcard branch; an exact hit of a wildcard needle in the map is reported as is
+		mn := needle
+		if strings.HasPrefix(needle, "*") {
+			exact := false
+			for _, w := range ws {
+				exact = exact || w == needle
+			}
+			if exact {
+				continue
+			}
+			mn = needle[1:]
+		}
+		c.Add(vlib.Case{ID: *id, Tags: []string{"hostmatch"}, Trivial: len(ws) < 2,
+			Term:   vlib.App("HostMatch", vlib.NI(*id), vlib.Str(mn), vlib.ListOf(ws, vlib.Str), vlib.ListOf(obs, vlib.Str)),
+			Sample: map[string]any{"kind": "HostMatch", "needle": needle, "wildcards": ws, "distinct_results": obs}})
 	}
 }
 
